@@ -328,3 +328,14 @@ def norm_type(name):
     s = s.replace('NonZeroU32', 'NonZero<u32>')
     s = s.replace(' ', '')
     return s
+
+
+def contains_undecoded_enum(bs):
+    """does the lowered tree hold an enum for which the debugger shows no variant"""
+    if isinstance(bs, dict):
+        if bs.get('k') == 'enum' and bs.get('variant') is None:
+            return True
+        return any(contains_undecoded_enum(x) for x in bs.values())
+    if isinstance(bs, list):
+        return any(contains_undecoded_enum(x) for x in bs)
+    return False
